@@ -207,6 +207,22 @@ pub fn tamper_case(case: &Value, dispatch: Dispatch, r: &mut Report) {
     };
     let base = bytes_of(&case["b"]);
     let props = Props::of(case);
+    // implementation trace of the reader mechanism for every tampered input of this case
+    if let Some(mut t) = crate::trace::TraceFile::open(case) {
+        for e in case["verdicts"].as_array().unwrap() {
+            if e[1][0] == "huge" {
+                continue;
+            }
+            let op: Vec<i64> = e[0].as_array().unwrap().iter().map(|x| x.as_i64().unwrap()).collect();
+            let b = apply_op(&base, &op);
+            t.start();
+            let _ = ops.decode_top(&b);
+            let evs = t.stop();
+            crate::trace::reader_events(&mut t, &evs);
+            r.count("traced_decodes");
+        }
+        t.flush();
+    }
     for e in case["verdicts"].as_array().unwrap() {
         let op: Vec<i64> = e[0].as_array().unwrap().iter().map(|x| x.as_i64().unwrap()).collect();
         let v = e[1].as_array().unwrap();
